@@ -11,6 +11,7 @@ import FFS.Driver.Keystore
 import FFS.Driver.FsWallet
 import FFS.Driver.Proxy
 import FFS.Driver.FsWalletConc
+import FFS.Driver.RpcClients
 open Lean FFS FFS.Driver
 
 def dispatch (op : String) (j : Json) : Json :=
@@ -51,6 +52,8 @@ def dispatch (op : String) (j : Json) : Json :=
   | "fsw.run" => opFswRun j
   | "proxy.handle" => opProxyHandle j
   | "fswc.run" => opFswcRun j
+  | "rpcws.run" => opRpcWsRun j
+  | "rpchttp.run" => opRpcHttpRun j
   | _ => Json.mkObj [("bad", "op")]
 
 partial def loop (hin : IO.FS.Stream) (hout : IO.FS.Stream) : IO Unit := do
